@@ -1,8 +1,10 @@
 // c16: transforms are pure functional updates, also across links.
 //
 // Records (tab separated):
-//   probe  quirks  <obs: ldn=1,apn=1,mdn=1,neg=1,app=1,nul=1>
-//        which of the confirmed FocusedTransform defects the tree under test shows on their witnesses
+//   probe  quirks  <obs: ldn=1,apn=1,mdn=1,neg=1,app=1,nul=1,sep=0,sxu=0,snd=0>
+//        which of the confirmed FocusedTransform defects the tree under test shows on their witnesses, and
+//        which of three since-changed selector behaviours (edge panics, exhausted recursion unwrapped,
+//        union interests not de-duplicated) it has
 //   <id>  ft  <blocks>  <root>  <steps>  <links>  <obs>
 //        blocks: "cidhex=val;..." initial store (block contents as loaded), "-" if empty
 //        root:   value text (links are l<cidhex>)
@@ -452,7 +454,10 @@ func (s *sel) spec(ssb builder.SelectorSpecBuilder) builder.SelectorSpec {
 	}
 }
 
-// genSel: inRec = an edge may be used here (always wrapped, never a bare union member)
+// bareEdgeOK: the tree under test survives an edge that is a direct union member (set from the probe)
+var bareEdgeOK bool
+
+// genSel: inRec = an edge may be used here (wrapped; a bare union member only if bareEdgeOK)
 func genSel(r *lib.Rng, depth int, inRec bool, keys []string) *sel {
 	if depth <= 0 {
 		return &sel{op: 'M'}
@@ -486,6 +491,9 @@ func genSel(r *lib.Rng, depth int, inRec bool, keys []string) *sel {
 		s := &sel{op: 'U'}
 		for i := 0; i < n; i++ {
 			k := genSel(r, depth-1, inRec, keys)
+			if inRec && bareEdgeOK && r.Intn(4) == 0 {
+				k = &sel{op: 'E'} // an edge as a direct union member (panicked before b8b93dd)
+			}
 			s.kids = append(s.kids, k)
 		}
 		return s
@@ -925,7 +933,32 @@ func probe() string {
 	neg := strings.HasPrefix(run(l12, []string{"-5"}, "c:i7", false), "ok:")
 	app := strings.HasPrefix(run(l12, []string{"-", "a"}, "c:i7", false), "ok:")
 	nul := run(lib.Null(), nil, "id", false) == "panic"
-	return "ldn=" + bit(ldn) + ",apn=" + bit(apn) + ",mdn=" + bit(mdn) + ",neg=" + bit(neg) + ",app=" + bit(app) + ",nul=" + bit(nul)
+	// selector package behaviours the WalkTransforming model depends on (changed by b8b93dd, 873f3b3, 87fc183)
+	ssb := builder.NewSelectorSpecBuilder(basicnode.Prototype.Any)
+	compile := func(t string) selector.Selector {
+		s, _ := parseSel(t)
+		c, err := selector.CompileSelector(s.spec(ssb).Node())
+		if err != nil {
+			panic(err)
+		}
+		return c
+	}
+	lnode, _ := lib.BuildBasic(lib.List(lib.List(lib.Int(1))))
+	// sep: ExploreRecursiveEdge.Explore panics
+	sep := lib.IsPanic(lib.Safely(func() error {
+		_, err := selector.ExploreRecursiveEdge{}.Explore(lnode, datamodel.PathSegmentOfInt(0))
+		return err
+	}))
+	// sxu: an exhausted recursion hands out the remainder without the ExploreRecursive wrapper
+	sxu := false
+	if nx, err := compile("R(1,U(A(U(M,A(E))),A(E)))").Explore(lnode, datamodel.PathSegmentOfInt(0)); err == nil && nx != nil {
+		_, wrapped := nx.(selector.ExploreRecursive)
+		sxu = !wrapped
+	}
+	// snd: ExploreUnion.Interests lists a segment once per member
+	snd := len(compile("U(I(1,M),F(31:M))").Interests()) == 2
+	return "ldn=" + bit(ldn) + ",apn=" + bit(apn) + ",mdn=" + bit(mdn) + ",neg=" + bit(neg) + ",app=" + bit(app) + ",nul=" + bit(nul) +
+		",sep=" + bit(sep) + ",sxu=" + bit(sxu) + ",snd=" + bit(snd)
 }
 
 func corpus(out *lib.Out) {
@@ -1049,7 +1082,9 @@ func main() {
 	fl := lib.ParseFlags()
 	out := lib.OpenOut(fl.Out)
 	defer out.Close()
-	out.Case("probe", "quirks", probe())
+	pr := probe()
+	bareEdgeOK = strings.Contains(pr, "sep=0")
+	out.Case("probe", "quirks", pr)
 	if fl.Replay != "" {
 		replay(out, fl.Replay)
 		return
@@ -1062,7 +1097,9 @@ func main() {
 		}
 	}
 	corpus(out)
-	rng := lib.NewRng(fl.Seed)
+	// NewRng(seed) walks one splitmix sequence from an offset linear in the seed, so seeds s and s+k give the
+	// same stream shifted by k draws; one Fork() first puts every seed on an unrelated offset.
+	rng := lib.NewRng(fl.Seed).Fork()
 	for i := 0; i < n; i++ {
 		r := rng.Fork()
 		g := newGraph()
